@@ -132,4 +132,20 @@ def worldLiqOp (op : String) (a : List Int) : Option String :=
     | _ => none
   some (r.getD "bad-args")
 
+/-- `wd.xfer <same arguments as xfer.run>` → the world machine's view of the transfer (`World.transferIx`):
+    `ok <old: group authority flags migratedTo 16 slots> // <new: the same>` -/
+def worldXferOp (op : String) (a : List Int) : Option String :=
+  if op != "wd.xfer" then none else
+  match parseSlots7 16 a with
+  | none => some "bad-args"
+  | some (s, rest) =>
+    match rest with
+    | [group, auth, flags, _emisDest, _mFrom, mTo, _lu, oldKey, groupKey, groupAdmin, cachedFw, paused, signer, newKey, newAuth, feeWallet, _now] =>
+      let g : GroupV := { key := groupKey.toNat, admin := groupAdmin.toNat, riskAdmin := 0, paused := s2b paused, progFeeRate := 0,
+                          window := { dailyLimit := 0, withdrawnToday := 0, lastReset := 0 } }
+      let acct : AcctV := { key := oldKey.toNat, group := group.toNat, authority := auth.toNat, flags := flags.toNat, slots := s, migratedTo := mTo.toNat }
+      let sh (x : AcctV) : String := s!"{x.group} {x.authority} {x.flags} {x.migratedTo} {showSlots7 x.slots}"
+      some (showResB ((World.transferIx g acct signer.toNat newKey.toNat newAuth.toNat (feeWallet == cachedFw)).map fun (o, n) => s!"{sh o} // {sh n}"))
+    | _ => some "bad-args"
+
 end Mfi.Driver
